@@ -191,6 +191,14 @@ class State(_train.Listener):
                 if not abs(ana - R) <= tol and not numdiff.confirmed_mismatch(f, x0, ana, scale, ferr):
                     ctx.count("mismatch_not_confirmed_at_finer_scales")
                 elif not abs(ana - R) <= tol:
+                    import os as _os
+                    if _os.environ.get("GCVERIF_DIAG"):
+                        f0_ = f(0.0)
+                        for h0_ in (1e-4, 1e-5, 1e-6):
+                            print("DIAG one_step", h0_, numdiff._one_step(f, f0_, h0_ * max(1.0, abs(x0)), ferr), "x0", x0, "ferr", ferr, "scale", scale, "tol", tol, flush=True)
+                        for h_ in (1e-2, 1e-3, 1e-4, 1e-5, 1e-6, 1e-7, 1e-8, 1e-9):
+                            print("DIAG h=%g central=%.12g fwd=%.12g bwd=%.12g analytic=%.12g" % (
+                                h_, (f(h_) - f(-h_)) / (2 * h_), (f(h_) - f0_) / h_, (f0_ - f(-h_)) / h_, ana), flush=True)
                     ctx.violation("update-direction", f"update-not-gradient/{fam}/param{j}",
                                   observed={"minus_grad_entry": ana, "param": j, "index": [int(x) for x in idx],
                                             "step": k, "gemini": type(gem).__name__, "ovo": getattr(gem, "ovo", None),
